@@ -235,7 +235,7 @@ func cmdVerify(args []string) {
 		}
 		if *verbose || !ok {
 			fmt.Printf("%-7s %-8s %6.2fs %s  [%s] %s\n", ob.Status, ob.Solver, ob.Secs, ob.Name, strings.Join(ob.Tags, ","), ob.Where)
-			if !ok && *keep {
+			if (!ok || *verbose) && *keep {
 				fmt.Printf("        query: %s\n", ob.Query)
 			}
 		}
